@@ -58,6 +58,86 @@ pub fn legal_configuration(doc: &Doc, cfg: &[String]) -> Result<(), String> {
     Ok(())
 }
 
+/// The one known deviation (known_findings.json): a selected transition dereferences a history
+/// state h (directly, or through initial/default targets) while `state` -- a proper descendant of
+/// h's parent -- is active and not exited; the W3C algorithm (addAncestorStatesToEnter(s,
+/// h.parent)) then prescribes entering `state` again.  Decided from the document alone.
+pub fn history_ancestor_pattern(doc: &Doc, selected: &[String], state: &str) -> bool {
+    let flat = flatten(doc);
+    let idx = |id: &str| flat.iter().position(|f| f.id == id);
+    let Some(si) = idx(state) else { return false };
+    let mut by_doc: Vec<&State> = Vec::new();
+    fn collect<'a>(s: &'a State, out: &mut Vec<&'a State>) {
+        out.push(s);
+        for c in &s.children {
+            collect(c, out);
+        }
+    }
+    for s in &doc.states {
+        collect(s, &mut by_doc);
+    }
+    let is_desc = |mut s: usize, anc: usize| {
+        while let Some(p) = flat[s].parent {
+            if p == anc {
+                return true;
+            }
+            s = p;
+        }
+        false
+    };
+    // states reachable through targets / initial / default history transitions
+    let mut work: Vec<usize> = Vec::new();
+    for l in selected {
+        let mut it = l.split('#');
+        let (Some(src), Some(k)) = (it.next(), it.next().and_then(|x| x.parse::<usize>().ok())) else { continue };
+        if let Some(i) = idx(src) {
+            if let Some(t) = by_doc[i].transitions.get(k) {
+                work.extend(t.targets.iter().filter_map(|x| idx(x)));
+            }
+        }
+    }
+    let mut seen: BTreeSet<usize> = BTreeSet::new();
+    while let Some(x) = work.pop() {
+        if !seen.insert(x) {
+            continue;
+        }
+        match &flat[x].kind {
+            Kind::History { .. } => {
+                let p = flat[x].parent.unwrap();
+                if is_desc(si, p) {
+                    return true;
+                }
+                if let Some(t) = by_doc[x].transitions.first() {
+                    work.extend(t.targets.iter().filter_map(|y| idx(y)));
+                }
+                // a recorded value may be any descendant of the parent
+                for d in 0..flat.len() {
+                    if is_desc(d, p) {
+                        work.push(d);
+                    }
+                }
+            }
+            Kind::Parallel => work.extend(flat[x].children.iter().cloned()),
+            Kind::State => match &by_doc[x].initial {
+                Initial::Attr(t) | Initial::Elem(t, _) => work.extend(t.iter().filter_map(|y| idx(y))),
+                Initial::Default => {
+                    if let Some(c) = flat[x].children.iter().find(|c| !matches!(flat[**c].kind, Kind::History { .. })) {
+                        work.push(*c);
+                    }
+                }
+            },
+            Kind::Final => {}
+        }
+        // ancestors of a target are entered as well and may be parallels completing other regions
+        if let Some(p) = flat[x].parent {
+            if matches!(flat[p].kind, Kind::Parallel) {
+                work.push(p);
+            }
+        }
+    }
+    false
+}
+
 /// Invariants over the observed record stream (no reference model involved in the verdict).
 /// `reference` is only used to *classify* one known deviation: where the W3C algorithm itself
 /// (addAncestorStatesToEnter up to the parent of a history state) prescribes entering a state
@@ -68,13 +148,18 @@ pub fn check_stream(doc: &Doc, trace: &[Rec], reference: &[Rec]) -> Result<(usiz
     let mut in_step_entered = false;
     let mut known: Option<(String, String)> = None;
     let mut known_hits = 0usize;
+    let mut last_sel: Vec<String> = Vec::new();
     for (i, r) in trace.iter().enumerate() {
         match r {
-            Rec::Sel(_) => in_step_entered = false,
+            Rec::Sel(l) => {
+                in_step_entered = false;
+                last_sel = l.clone();
+            }
             Rec::Enter(s) => {
                 in_step_entered = true;
                 if !running.insert(s.clone()) {
-                    let prescribed = reference.len() > i && reference[..=i] == trace[..=i];
+                    let _ = reference;
+                    let prescribed = history_ancestor_pattern(doc, &last_sel, s);
                     let d = format!("record {}: state {} entered while already active", i, s);
                     if prescribed {
                         known_hits += 1;
